@@ -370,9 +370,9 @@ theorem addAll_ok (d0 : Disk) : ∀ (kept : List Entry) (j : FJ), Inv j → (∀
         rintro r ⟨m, rfl⟩
         exact ⟨m + 1, by rw [a3]; simp⟩
 
-theorem delTo_ok {j : FJ} {d0 : Disk} (hi : Inv j) (n : Nat)
+theorem delToOld_ok {j : FJ} {d0 : Disk} (hi : Inv j) (n : Nat)
     (hm : j.disk.metaFile = d0.metaFile) (ht : j.disk.tmp = d0.tmp) :
-    ∃ j' ps, j.delTo n = .ok (j', ps) ∧ Inv j' ∧ j'.entries = j.entries.drop n ∧
+    ∃ j' ps, j.delToOld n = .ok (j', ps) ∧ Inv j' ∧ j'.entries = j.entries.drop n ∧
       j'.disk = applyPrims j.disk ps ∧ j'.mci = j.mci ∧ j'.metaSaved = j.metaSaved ∧
       CrashAll (QF d0 (fun r => r = j.entries ∨ ∃ m, r = (j.entries.drop n).take m)) j.disk ps ∧
       (∀ t, QF d0 (fun r => r = []) (crashDisk j.disk ps 1 t)) := by
@@ -380,7 +380,7 @@ theorem delTo_ok {j : FJ} {d0 : Disk} (hi : Inv j) (n : Nat)
   have hvd := hi.1.2.1.drop n
   obtain ⟨j2, p2, b1, b2, b3, b4, b5, b6, b7, b8⟩ := addAll_ok d0 (j.entries.drop n) j1 a2 hvd.2
     (by rw [a3]; simpa using hvd.1) (by rw [a7]; exact hm) (by rw [a8]; exact ht)
-  refine ⟨j2, p1 ++ p2, by simp only [FJ.delTo, a1, b1], b2, by rw [b3, a3]; simp, ?_, by rw [b5, a5],
+  refine ⟨j2, p1 ++ p2, by simp only [FJ.delToOld, a1, b1], b2, by rw [b3, a3]; simp, ?_, by rw [b5, a5],
     by rw [b6, a6], ?_, ?_⟩
   rotate_left 2
   · intro t
@@ -398,5 +398,215 @@ theorem delTo_ok {j : FJ} {d0 : Disk} (hi : Inv j) (n : Nat)
       refine CrashAll.mono b7 (fun d h => QF.mono h ?_)
       rintro r ⟨m, rfl⟩
       exact Or.inr ⟨m, by rw [a3]; simp⟩
+
+/-! ### the repaired head drop: second file + atomic rename -/
+
+def isFilePrim : Prim → Bool
+  | .resize _ => true
+  | .store _ _ => true
+  | _ => false
+
+/-- Primitives on `<journal>.tmp` other than the rename. -/
+def isJtPrim : Prim → Bool
+  | .jtRemove => true
+  | .jtCreate => true
+  | .jtWrite _ => true
+  | .jtResize _ => true
+  | .jtStore _ _ => true
+  | _ => false
+
+/-- The journal file after file-only primitives. -/
+def fileAfter (f : Bytes) : List Prim → Bytes
+  | [] => f
+  | .resize n :: ps => fileAfter (resizeFile f n) ps
+  | .store off bs :: ps => fileAfter (storeAt f off bs) ps
+  | _ :: ps => fileAfter f ps
+
+def FileOnly (ps : List Prim) : Prop := ∀ p ∈ ps, isFilePrim p = true
+def JtOnly (ps : List Prim) : Prop := ∀ p ∈ ps, isJtPrim p = true
+
+theorem FileOnly.tail {p ps} (h : FileOnly (p :: ps)) : FileOnly ps := fun q hq => h q (List.mem_cons_of_mem _ hq)
+theorem JtOnly.tail {p ps} (h : JtOnly (p :: ps)) : JtOnly ps := fun q hq => h q (List.mem_cons_of_mem _ hq)
+theorem FileOnly.append {a b} (ha : FileOnly a) (hb : FileOnly b) : FileOnly (a ++ b) := by
+  intro p hp; rcases List.mem_append.mp hp with h | h
+  · exact ha p h
+  · exact hb p h
+theorem JtOnly.append {a b} (ha : JtOnly a) (hb : JtOnly b) : JtOnly (a ++ b) := by
+  intro p hp; rcases List.mem_append.mp hp with h | h
+  · exact ha p h
+  · exact hb p h
+
+theorem applyPrims_fileOnly (ps : List Prim) (h : FileOnly ps) (d : Disk) :
+    applyPrims d ps = { d with file := fileAfter d.file ps } := by
+  induction ps generalizing d with
+  | nil => rfl
+  | cons p ps ih =>
+    have hp := h p List.mem_cons_self
+    cases p <;> simp [isFilePrim] at hp <;> simp [applyPrim, fileAfter, ih h.tail]
+
+theorem applyPrims_toTmp (ps : List Prim) (h : FileOnly ps) (d : Disk) (f : Bytes)
+    (hd : d.jtmp = some f) :
+    applyPrims d (ps.map toTmp) = { d with jtmp := some (fileAfter f ps) } := by
+  induction ps generalizing d f with
+  | nil => cases d; simp_all [fileAfter]
+  | cons p ps ih =>
+    have hp := h p List.mem_cons_self
+    cases p <;> simp [isFilePrim] at hp
+    · simp only [List.map_cons, toTmp, applyPrims_cons, applyPrim, hd, Option.map_some, fileAfter]
+      rw [ih h.tail _ _ rfl]
+    · simp only [List.map_cons, toTmp, applyPrims_cons, applyPrim, hd, Option.map_some, fileAfter]
+      rw [ih h.tail _ _ rfl]
+
+theorem toTmp_isJt (ps : List Prim) (h : FileOnly ps) : JtOnly (ps.map toTmp) := by
+  intro q hq
+  obtain ⟨p, hp, rfl⟩ := List.mem_map.mp hq
+  have := h p hp
+  cases p <;> simp [isFilePrim] at this <;> simp [toTmp, isJtPrim]
+
+/-- Whatever happens to `<journal>.tmp` before the rename, completely or torn, the journal file and
+the meta files are untouched. -/
+theorem crashAll_jtOnly (Q : Disk → Prop) (ps : List Prim) (h : JtOnly ps) :
+    ∀ d : Disk, (∀ jt, Q { d with jtmp := jt }) → CrashAll Q d ps := by
+  induction ps with
+  | nil => intro d hq; apply CrashAll.nil; simpa using hq d.jtmp
+  | cons p ps ih =>
+    intro d hq
+    have hp := h p List.mem_cons_self
+    have hd : Q d := by simpa using hq d.jtmp
+    apply CrashAll.cons
+    · intro t
+      cases p <;> simp [isJtPrim] at hp <;> simp only [tornPrim] <;> first | exact hd | exact hq _ | skip
+      split
+      · exact hd
+      · exact hq _
+    · cases p <;> simp [isJtPrim] at hp <;> simp only [applyPrim] <;>
+        exact ih h.tail _ (fun jt => by simpa using hq jt)
+
+theorem rfWrite_fileOnly (f : Bytes) (off : Nat) (vs : Bytes) : FileOnly (rfWrite f off vs).2 := by
+  intro p hp
+  unfold rfWrite at hp; split at hp <;> simp at hp
+  · rcases hp with rfl | rfl <;> rfl
+  · subst hp; rfl
+
+theorem setLast_shape {f : Bytes} {off : Nat} {f' : Bytes} {ps : List Prim}
+    (h : setLast f off = .ok (f', ps)) : FileOnly ps := by
+  unfold setLast at h
+  split at h
+  · simp only [Except.ok.injEq] at h
+    have : (rfWrite f LAST_RECORD_OFFSET_OFFSET (leEnc 4 off)).2 = ps := by rw [h]
+    rw [← this]; exact rfWrite_fileOnly _ _ _
+  · cases h
+
+theorem add_shape {j : FJ} {e : Entry} {j' : FJ} {ps : List Prim} (h : j.add e = .ok (j', ps)) :
+    j'.ver = j.ver ∧ FileOnly ps := by
+  unfold FJ.add at h
+  split at h
+  · cases h
+  · split at h
+    · cases h
+    · simp only at h
+      split at h
+      · cases h
+      · rename_i f2 p2 heq
+        simp only [Except.ok.injEq, Prod.mk.injEq] at h
+        obtain ⟨rfl, rfl⟩ := h
+        exact ⟨rfl, (rfWrite_fileOnly _ _ _).append (setLast_shape heq)⟩
+
+theorem addAll_shape : ∀ (es : List Entry) {j j' : FJ} {ps : List Prim}, addAll j es = .ok (j', ps) →
+    j'.ver = j.ver ∧ FileOnly ps := by
+  intro es
+  induction es with
+  | nil =>
+    intro j j' ps h; simp [addAll] at h; obtain ⟨rfl, rfl⟩ := h
+    exact ⟨rfl, fun p hp => by simp at hp⟩
+  | cons e es ih =>
+    intro j j' ps h
+    simp only [addAll] at h
+    split at h
+    · cases h
+    · rename_i j1 p1 h1
+      split at h
+      · cases h
+      · rename_i j2 p2 h2
+        cases h
+        have a := add_shape h1
+        have b := ih h2
+        exact ⟨b.1.trans a.1, a.2.append b.2⟩
+
+theorem defaultHeader_length (ver : Bytes) (hver : ver.length ≤ 8) : (defaultHeader ver).length = 40 := by
+  have hn : (padTo APP_NAME NAME_SIZE).length = 24 := by decide
+  have hvl : (padTo ver VERSION_SIZE).length = 8 := by simp [padTo, zeros, VERSION_SIZE]; omega
+  simp [defaultHeader, hn, hvl]
+
+/-- A freshly created journal file (header + zero fill to 1024 bytes) holds no entries. -/
+theorem DInv_fresh (ver : Bytes) (hver : ver.length ≤ 8) :
+    DInv (resizeFile (defaultHeader ver) INITIAL_SIZE) [] := by
+  have hn : (padTo APP_NAME NAME_SIZE).length = 24 := by decide
+  have hvl : (padTo ver VERSION_SIZE).length = 8 := by simp [padTo, zeros, VERSION_SIZE]; omega
+  have hlen := defaultHeader_length ver hver
+  have hle : (defaultHeader ver).length ≤ INITIAL_SIZE := by rw [hlen]; decide
+  refine ⟨⟨padTo APP_NAME NAME_SIZE ++ padTo ver VERSION_SIZE ++ leEnc 4 1, zeros (1024 - 40), ?_, ?_⟩,
+    Valid.nil, ?_⟩
+  · simp [hn, hvl]
+  · simp only [resizeFile_ge hle, hlen]
+    simp [defaultHeader, encEntries, encLen, FIRST_RECORD_OFFSET, INITIAL_SIZE, List.append_assoc]
+  · rw [resizeFile_length hle]; decide
+
+theorem delTo_ok {j : FJ} {d0 : Disk} (hi : Inv j) (hver : j.ver.length ≤ 8) (n : Nat)
+    (hm : j.disk.metaFile = d0.metaFile) (ht : j.disk.tmp = d0.tmp) :
+    ∃ j' ps, j.delTo n = .ok (j', ps) ∧ Inv j' ∧ j'.entries = j.entries.drop n ∧
+      j'.disk = applyPrims j.disk ps ∧ j'.mci = j.mci ∧ j'.metaSaved = j.metaSaved ∧ j'.ver = j.ver ∧
+      CrashAll (QF d0 (fun r => r = j.entries ∨ r = j.entries.drop n)) j.disk ps := by
+  have hlen := defaultHeader_length j.ver hver
+  have hlt : (defaultHeader j.ver).length < INITIAL_SIZE := by rw [hlen]; decide
+  have hvd := hi.1.2.1.drop n
+  -- the object while it writes into the tmp file
+  obtain ⟨j1, hj1⟩ : ∃ j1 : FJ, j1 = { j with
+      disk := { j.disk with file := resizeFile (defaultHeader j.ver) INITIAL_SIZE },
+      entries := [], cur := FIRST_RECORD_OFFSET } := ⟨_, rfl⟩
+  have hi1 : Inv j1 := by
+    subst hj1; exact ⟨DInv_fresh j.ver hver, by simp [encLen, FIRST_RECORD_OFFSET]⟩
+  obtain ⟨j2, ps, b1, b2, b3, b4, b5, b6, _, _⟩ := addAll_ok j1.disk (j.entries.drop n) j1 hi1 hvd.2
+    (by subst hj1; simpa using hvd.1) rfl rfl
+  obtain ⟨hv2, hfo⟩ := addAll_shape _ b1
+  subst hj1
+  simp only [List.nil_append] at b3
+  have hfile : j2.disk.file = fileAfter (resizeFile (defaultHeader j.ver) INITIAL_SIZE) ps := by
+    rw [b4, applyPrims_fileOnly ps hfo]
+  have hdel : j.delTo n = .ok ({ j2 with disk := { j.disk with file := j2.disk.file, jtmp := none } },
+      ((if j.disk.jtmp.isSome then [Prim.jtRemove] else []) ++ [Prim.jtCreate, Prim.jtWrite (defaultHeader j.ver)] ++
+        [Prim.jtResize INITIAL_SIZE]) ++ ps.map toTmp ++ [Prim.jtRename]) := by
+    simp only [FJ.delTo, hlt, if_true, b1]
+  -- the primitives before the rename only touch `<journal>.tmp`
+  have hjt : JtOnly (((if j.disk.jtmp.isSome then [Prim.jtRemove] else []) ++
+      [Prim.jtCreate, Prim.jtWrite (defaultHeader j.ver)] ++ [Prim.jtResize INITIAL_SIZE]) ++ ps.map toTmp)
+      := by
+    refine JtOnly.append ?_ (toTmp_isJt ps hfo)
+    intro p hp
+    split at hp <;> simp at hp <;> rcases hp with rfl | rfl | rfl | rfl <;> rfl
+  -- the disk right before the rename
+  have hpre : applyPrims j.disk (((if j.disk.jtmp.isSome then [Prim.jtRemove] else []) ++
+      [Prim.jtCreate, Prim.jtWrite (defaultHeader j.ver)] ++ [Prim.jtResize INITIAL_SIZE]) ++ ps.map toTmp)
+      = { j.disk with jtmp := some j2.disk.file } := by
+    rw [applyPrims_append]
+    have h0 : applyPrims j.disk ((if j.disk.jtmp.isSome then [Prim.jtRemove] else []) ++
+        [Prim.jtCreate, Prim.jtWrite (defaultHeader j.ver)] ++ [Prim.jtResize INITIAL_SIZE])
+        = { j.disk with jtmp := some (resizeFile (defaultHeader j.ver) INITIAL_SIZE) } := by
+      split <;> simp [applyPrim]
+    rw [h0, applyPrims_toTmp ps hfo _ _ rfl, hfile]
+  have hQold : ∀ jt, QF d0 (fun r => r = j.entries ∨ r = j.entries.drop n) { j.disk with jtmp := jt } :=
+    fun jt => ⟨hm, ht, j.entries, hi.1, Or.inl rfl⟩
+  have hd2 : DInv j2.disk.file (j.entries.drop n) := by
+    have := b2.1; rwa [b3] at this
+  refine ⟨_, _, hdel, ⟨b2.1, b2.2⟩, b3, ?_, b5, b6, hv2, ?_⟩
+  · rw [applyPrims_append, hpre]; simp [applyPrim]
+  · apply CrashAll.append
+    · exact crashAll_jtOnly _ _ hjt _ hQold
+    · rw [hpre]
+      apply CrashAll.cons
+      · intro t; simp only [tornPrim]; exact hQold _
+      · apply CrashAll.nil
+        simp only [applyPrim]
+        exact ⟨hm, ht, j.entries.drop n, hd2, Or.inr rfl⟩
 
 end PSO.Journal
